@@ -20,8 +20,10 @@ ATOM = {
     'Zero': lambda: 0, 'False': lambda: False, 'EmptyStr': lambda: '',
     'EmptyList': lambda: [], 'One': lambda: 1, 'None': lambda: None,
     'QZero': lambda: 0 * units.g, 'QOne': lambda: 1 * units.g,
+    'RZero': lambda: 0 * units.mm / units.m, 'ROne': lambda: 1 * units.mm / units.m,
 }
-MAG = {'QZero': 0, 'QOne': 1}
+UNIT_LABEL = {'qty': 'gram', 'ratio': 'millimeter / meter'}
+MAG = {'QZero': 0, 'QOne': 1, 'RZero': 0, 'ROne': 1}
 
 
 def seq(x):
@@ -122,7 +124,7 @@ def check_case(rep, c, variant=0):
     for v in c['vars']:
         p = list(v['p'])
         if v['qty']:
-            key = tuple(p[:-1]) + ((p[-1], 'gram'),)
+            key = tuple(p[:-1]) + ((p[-1], UNIT_LABEL[v.get('kind', 'qty')]),)
             vals = [MAG[a] for a in v['vals']]
         else:
             key = tuple(p)
@@ -213,7 +215,8 @@ def check_unordered(rep, c):
             return
         for v in c['vars']:
             p = list(v['p'])
-            key = (tuple(p[:-1]) + ((p[-1], 'gram'),)) if v['qty'] else tuple(p)
+            key = (tuple(p[:-1]) + ((p[-1], UNIT_LABEL[v.get('kind', 'qty')]),)) if v['qty'] \
+                else tuple(p)
             try:
                 col = ts[key] if flat else get_nested(ts, key)
             except KeyError:
